@@ -46,7 +46,7 @@ def rand_line(rng, requested):
         return {'class': 'VERSION', 'release': rng.choice(['3.17', '3.25', 3, None]), 'rev': 'x', 'proto_major': 3}, k
     if k == 'devices':
         n = rng.randrange(0, 6)
-        devs = [{'class': 'DEVICE', 'path': p, 'driver': 'u-blox'} for p in rng.sample(PATHS, min(n, len(PATHS)))]
+        devs = [dict({'class': 'DEVICE', 'path': p}, **rng.choice([{'driver': 'u-blox'}, {'driver': 'NMEA0183'}, {'driver': 'PPS'}, {'driver': None}, {}, {'activated': '2020-01-01T00:00:00Z', 'native': 0}])) for p in rng.sample(PATHS, min(n, len(PATHS)))]
         if requested and rng.random() < 0.5 and devs:
             devs[rng.randrange(len(devs))]['path'] = requested
         return {'class': 'DEVICES', 'devices': devs}, k
@@ -155,7 +155,7 @@ def check(tier, seed):
             for _c in range(rng.randrange(1, 4)):
                 devs = rng.sample(PATHS, rng.randrange(0, 4))
                 lists.append(devs)
-                line = json.dumps({'class': 'DEVICES', 'devices': [{'class': 'DEVICE', 'path': p_} for p_ in devs]}).encode()
+                line = json.dumps({'class': 'DEVICES', 'devices': [dict({'class': 'DEVICE', 'path': p_}, **rng.choice([{}, {'driver': 'NMEA0183'}, {'driver': None}, {'driver': 'u-blox'}])) for p_ in devs]}).encode()
                 pre = rng.choice([b'', b'{"class":"VERSION","release":"3.25"}\r\n', b'$GPRMC,1*00\r\n', b'\r\n'])
                 chunks.append(pre + line + b'\r\n')
             if rng.random() < 0.5:      # several lists in one recv(): all are processed before the loop can stop
@@ -187,6 +187,13 @@ def check(tier, seed):
                 res.violation('setup(): handshake selected the wrong device or finished in the wrong state',
                               {'property': 'C20', 'input': desc, 'expected': [sel, en], 'result': [srv.selected_device, srv.enabled, done]}, f'c20-setup|{bool(requested)}')
             elif done:
+                # a second server object set up in between must not change where the first one sends its commands
+                other = SV.GnssUBlox(None)          # same class object (class-level state would be shared)
+                BK.StubSocket.plan = {'data_chunks': [b'{"class":"DEVICES","devices":[{"path":"/dev/other"}]}\r\n', Stop], 'reply': b'OK'}
+                try:
+                    other.setup()
+                except Exception:
+                    pass
                 if srv.cmd_header != b'&' + sel.encode() + b'=':
                     res.violation('setup(): command header does not address the selected device', {'property': 'C20', 'input': desc, 'result': repr(srv.cmd_header)}, 'c20-header')
                 BK.StubSocket.plan = {'reply': b'OK'}
